@@ -5,7 +5,7 @@ use crate::oracle::FaceKey;
 use crate::util::*;
 use glam::DVec3;
 use meshless_voronoi::geometry::{signed_area_tri, signed_volume_tet};
-use meshless_voronoi::integrals::{CellIntegral, FaceIntegral};
+use meshless_voronoi::integrals::{CellIntegral, CellIntegralWithData, FaceIntegral, FaceIntegralWithData};
 use meshless_voronoi::{ConvexCell, ConvexCellMarker};
 
 /// Face integral that records what the library feeds to it.
@@ -116,6 +116,49 @@ impl CellIntegral for CellRec {
     fn finalize(self) -> Self {
         self
     }
+}
+
+/// Data-carrying variants (implemented through the `*WithData` traits only, like a downstream crate
+/// would): the recorded integral plus the datum the library delivered to it.
+#[derive(Clone, Debug, Default)]
+pub struct CellRecD(pub CellRec);
+
+impl CellIntegralWithData for CellRecD {
+    type Data = u64;
+    fn init_with_data<M: ConvexCellMarker>(cell: &ConvexCell<M>, data: u64) -> Self {
+        let mut r = <CellRec as CellIntegral>::init(cell);
+        r.data = data;
+        CellRecD(r)
+    }
+    fn collect(&mut self, v0: DVec3, v1: DVec3, v2: DVec3, gen: DVec3) {
+        CellIntegral::collect(&mut self.0, v0, v1, v2, gen)
+    }
+    fn finalize(self) -> Self {
+        CellRecD(CellIntegral::finalize(self.0))
+    }
+}
+
+#[derive(Clone, Debug, Default)]
+pub struct FaceRecD(pub FaceRec);
+
+impl FaceIntegralWithData for FaceRecD {
+    type Data = u64;
+    fn init_with_data<M: ConvexCellMarker>(cell: &ConvexCell<M>, clipping_plane_idx: usize, data: u64) -> Self {
+        let mut r = <FaceRec as FaceIntegral>::init(cell, clipping_plane_idx);
+        r.data = data;
+        FaceRecD(r)
+    }
+    fn collect(&mut self, v0: DVec3, v1: DVec3, v2: DVec3, gen: DVec3) {
+        FaceIntegral::collect(&mut self.0, v0, v1, v2, gen)
+    }
+    fn finalize(self) -> Self {
+        FaceRecD(FaceIntegral::finalize(self.0))
+    }
+}
+
+/// The datum handed to the library for generator index i.
+pub fn datum(i: usize) -> u64 {
+    7 * i as u64 + 3
 }
 
 // ---------------------------------------------------------------------------------------------
